@@ -73,7 +73,20 @@ impl<F: Float> Transformer<Array2<F>, Array2<F>> for NormScaler {
 
         let norms = match &self.norm {
             Norms::L1 => x.map_axis(Axis(1), |row| F::cast(row.norm_l1())),
-            Norms::L2 => x.map_axis(Axis(1), |row| F::cast(row.norm_l2())),
+            // the squares of very small or very large entries under- or overflow although the norm
+            // itself is representable: take the norm of the row divided by its largest entry
+            Norms::L2 => x.map_axis(Axis(1), |row| {
+                let largest = F::cast(row.norm_max());
+                if largest == F::zero() || !largest.is_finite() {
+                    largest
+                } else {
+                    let sum_of_squares = row.iter().fold(F::zero(), |acc, &el| {
+                        let ratio = F::cast(el) / largest;
+                        acc + ratio * ratio
+                    });
+                    largest * sum_of_squares.sqrt()
+                }
+            }),
             Norms::Max => x.map_axis(Axis(1), |row| F::cast(row.norm_max())),
         };
 
